@@ -35,7 +35,7 @@ ASSUMPTIONS = [
 
 
 def make_reweight(N, tol, ratio, D):
-    tolf, ratio = Fraction(tol), Fraction(ratio)
+    tolf, ratio = Fraction(tol), Fraction(float(Fraction(ratio)))
 
     def build(ctx, shift):
         st = StateManager(n_dim=1)
@@ -99,8 +99,8 @@ def make_kernel(kernel, n, d):
         logl = [cb.ll_term(x[k]) + (cb.shift if cb.shift is not None else 0) for k in range(n)]
         stub = RandomStub(Draws(ctx), max_calls=(2 if kernel == "tpcn" else 1) * n + 2)
         noadapt = lambda self, c, mean_accept: None
-        with exp_as_uf(abstract=True), patched(mcmc, np=mcmc_proxy(stub)), patched_attr(mcmc.TPCNRunner, _adapt_sigma=noadapt), \
-                patched_attr(mcmc.RWMRunner, _adapt_sigma=noadapt):
+        with exp_as_uf(abstract=True), patched(mcmc, np=mcmc_proxy(stub)), patched_attr(mcmc.TPCNRunner, _adapt_sigma=noadapt, _check_convergence=lambda self, acc: True), \
+                patched_attr(mcmc.RWMRunner, _adapt_sigma=noadapt, _check_convergence=lambda self, acc: True):
             out = mcmc.parallel_mcmc(u=sarr(u), x=sarr(x), logl=sarr(logl), blobs=None, assignments=np.zeros(n, dtype=int), beta=beta,
                                      mode_stats=ms, log_likelihood=cb.log_likelihood, prior_transform=cb.prior_transform,
                                      n_steps=1, n_max=1, sample=kernel, verbose=False)
@@ -150,7 +150,7 @@ def make_kernel(kernel, n, d):
     return Obligation(f"kernel-{kernel}-n{n}-d{d}", harness, replay=replay,
                       encodes=[mcmc.parallel_mcmc, mcmc.BaseMCMCRunner.run, mcmc.TPCNRunner._compute_acceptance_factor],
                       bounds=f"one kernel iteration, {n} walkers, d={d}, symbolic shift c, identical symbolic draws in both runs, <= 1 redraw",
-                      stubs=["np.random.* -> shared symbolic draws", "np.exp/np.log on reals -> uninterpreted", "_adapt_sigma -> no-op"],
+                      stubs=["np.random.* -> shared symbolic draws", "np.exp/np.log on reals -> uninterpreted", "_adapt_sigma -> no-op, _check_convergence -> True (one kernel iteration)"],
                       allow_bound="paths needing more proposal redraws than the draw budget are cut", theory="QF_UFNRA", max_paths=3000)
 
 
